@@ -211,20 +211,27 @@ def judge(ctx, k, path, head, evs, tevs, ok, res, hw):
 def run(ctx):
     ctx.level = "model_checking"
     # 1. the specification itself
-    if ctx.tier == "quick":
-        ctx.tlc("ISAAC", "ISAAC_mc_small.cfg", timeout=400)
-    else:
-        ctx.tlc("ISAAC", "ISAAC_mc_quick.cfg", timeout=2400)
-        # 4 nodes with one Byzantine member: the exhaustive run does not finish (> 8.5 M distinct states after
-        # 17 min, queue still growing), so this instance is explored by random behaviours
-        r = ctx.tlc("ISAAC", "ISAAC_mc_byz.cfg", args=["-simulate", "num=4000", "-depth", 60, "-seed", ctx.seed],
+    def sim(cfg, num, depth, key):
+        r = ctx.tlc("ISAAC", cfg, args=["-simulate", "num=%d" % num, "-depth", depth, "-seed", ctx.seed],
                     workers=8, timeout=1500, count=False)
-        m = re.findall(r"The number of states generated: (\d+)", r.out)
+        m = re.findall(r"The number of states generated: (\d+)", r.out) or re.findall(r"(\d+) states checked", r.out)
         t = re.findall(r"(\d+) traces generated", r.out)
-        ctx.extra["ISAAC_mc_byz_simulation"] = {"states_checked": int(m[-1]) if m else 0, "behaviours": int(t[-1]) if t else 0}
+        ctx.extra[key] = {"states_checked": int(m[-1]) if m else 0, "behaviours": int(t[-1]) if t else 0}
         if m:
             ctx.states += int(m[-1])
             ctx.transitions += int(m[-1])
+
+    if ctx.tier == "quick":
+        ctx.tlc("ISAAC", "ISAAC_mc_small.cfg", timeout=400)          # 2 nodes, 1 height, round 0: exhaustive
+        sim("ISAAC_sim3.cfg", 150, 70, "ISAAC_sim3_simulation")       # 3 nodes, 2 heights, rounds 0..1: random behaviours
+    else:
+        ctx.tlc("ISAAC", "ISAAC_mc_small.cfg", timeout=400)
+        ctx.tlc("ISAAC", "ISAAC_mc_quick.cfg", timeout=2400)          # 2 nodes, 2 heights: ~405 k states
+        ctx.tlc("ISAAC", "ISAAC_mc_rounds.cfg", timeout=3000)         # 2 nodes, rounds 0..1: ~834 k states
+        ctx.tlc("ISAAC", "ISAAC_live.cfg", workers=4, timeout=1200)    # liveness under fairness (timely proposals)
+        sim("ISAAC_sim3.cfg", 3000, 80, "ISAAC_sim3_simulation")
+        # 4 nodes with one Byzantine member: the exhaustive run does not finish, so random behaviours
+        sim("ISAAC_mc_byz.cfg", 3000, 60, "ISAAC_mc_byz_simulation")
 
     # 2. real executions
     seed = ctx.seed
